@@ -66,33 +66,40 @@ Definition child_rule (row : string) : crule :=
   | [] => COther
   end.
 
-Definition crule_reverse (c : crule) : string :=
-  match c with CName => "undo name" | CDescr => "undo description" | COther => "undo" end.
+(* rule["reverse"]: neg = the vendor's negation word (huawei "undo", cisco "no") *)
+Definition crule_reverse (neg : string) (c : crule) : string :=
+  match c with
+  | CName => (neg ++ " name")%string
+  | CDescr => (neg ++ " description")%string
+  | COther => neg
+  end.
 
 Definition is_rule (c : crule) (row : string) : bool := crule_eqb c (child_rule row).
 
 (* common.default on the slot of one option rule with the empty key: None = "Too many ... actions" *)
-Definition child_patch1 (c : crule) (ko kn : list string) : option (list string) :=
+Definition child_patch1 (neg : string) (c : crule) (ko kn : list string) : option (list string) :=
   let a := filter (fun r => is_rule c r && negb (mem_str r ko)) kn in
   let r := filter (fun r => is_rule c r && negb (mem_str r kn)) ko in
   if Nat.ltb 1 (List.length a) || Nat.ltb 1 (List.length r) then None
   else match a, r with
        | x :: _, _ => Some [x]
-       | [], _ :: _ => Some [crule_reverse c]
+       | [], _ :: _ => Some [crule_reverse neg c]
        | [], [] => Some []
        end.
 
 (* rows of the catch-all rule: one slot per row *)
-Definition other_patch (ko kn : list string) : list string :=
-  map (fun r => ("undo " ++ r)%string) (filter (fun r => is_rule COther r && negb (mem_str r kn)) ko) ++
+Definition other_patch (neg : string) (ko kn : list string) : list string :=
+  map (fun r => (neg ++ " " ++ r)%string) (filter (fun r => is_rule COther r && negb (mem_str r kn)) ko) ++
   filter (fun r => is_rule COther r && negb (mem_str r ko)) kn.
 
 (* the patch rows inside the block for old option rows ko and new option rows kn *)
-Definition child_patch (ko kn : list string) : option (list string) :=
-  match child_patch1 CName ko kn, child_patch1 CDescr ko kn with
-  | Some a, Some b => Some (a ++ b ++ other_patch ko kn)
+Definition child_patch_g (neg : string) (ko kn : list string) : option (list string) :=
+  match child_patch1 neg CName ko kn, child_patch1 neg CDescr ko kn with
+  | Some a, Some b => Some (a ++ b ++ other_patch neg ko kn)
   | _, _ => None
   end.
+
+Definition child_patch := child_patch_g "undo".
 
 (* ------------------------------------------------------------------------------------ *)
 (* vlan_diff + mark_unchanged + common.default on the `vlan N` slots.
